@@ -228,6 +228,7 @@ func c15Scenarios() []*engine.SScenario {
 	}
 	return []*engine.SScenario{
 		c15CoreLifetime(),
+		c15CoreLifetimeConcurrent(),
 		mk("publish | subscribe+unsubscribe", []string{"C1", "P1"}, nil, func(b *evBus) []func() {
 			return []func(){func() { b.pub("e1") }, func() { b.sub("P2"); b.unsub("P1") }}
 		}),
@@ -345,6 +346,48 @@ func c15CoreLifetime() *engine.SScenario {
 			rt.JoinFinished()
 		})
 		return rt.Outcome{Res: res, Violations: append(viol, panicsAndDeadlocks(res)...), Digest: fmt.Sprintf("histories=%d", n)}
+	}}
+}
+
+// c15CoreLifetimeConcurrent: the last connected peer is removed while another peer connects (two connection
+// goroutines of the SHIP layer). Afterwards one peer is connected, so the stack's internal handler must be on
+// the bus: the new peer's announcement is answered with the node-management subscription request and the
+// use-case read, and the application sees the device event once.
+func c15CoreLifetimeConcurrent() *engine.SScenario {
+	return &engine.SScenario{Name: "the last peer is removed while another peer connects: the stack's core handler stays subscribed", Run: func(cfg rt.Config) rt.Outcome {
+		var viol []string
+		dig := ""
+		res := rt.Execute(cfg, func() {
+			ents := []world.EntSpec{clientEntity([]uint{1})}
+			w := world.New(true)
+			stdLocal(w)
+			w.ConnectAndAnnounce("A", "dA", ents)
+			rt.WaitIdle()
+			rt.BeginExplore()
+			rt.Go(func() { w.L.RemoveRemoteDeviceConnection("A") })
+			rt.Go(func() { w.Connect("B", "dB").Ents = ents })
+			rt.WaitIdle()
+			rt.JoinFinished()
+			pe := w.Peers["B"]
+			m := w.Mark()
+			pe.Deliver(pe.DiscoveryReply(ents))
+			rt.WaitIdle()
+			nsub, nuc := 0, 0
+			for _, o := range w.Since(m) {
+				if o.Conn == pe.W.Name && o.Class == "call" && o.Fn == "NodeManagementSubscriptionRequestCall" {
+					nsub++
+				}
+				if o.Conn == pe.W.Name && o.Class == "read" && o.Fn == "NodeManagementUseCaseData" {
+					nuc++
+				}
+			}
+			nev := evCount(w.EventsSince(m), api.EventTypeDeviceChange, api.ElementChangeAdd)
+			dig = fmt.Sprintf("sub=%d uc=%d ev=%d", nsub, nuc, nev)
+			if nsub != 1 || nuc != 1 || nev != 1 {
+				viol = append(viol, fmt.Sprintf("a device event did not reach the stack's internal handler and the application exactly once | subscription requests=%d use-case reads=%d application events=%d", nsub, nuc, nev))
+			}
+		})
+		return rt.Outcome{Res: res, Violations: append(viol, panicsAndDeadlocks(res)...), Digest: dig}
 	}}
 }
 
